@@ -11,11 +11,15 @@ CONSTANTS Plans, SampleDB, SampleMS, SampleSeries, SampleMatchers, OutFile
 
 PS(p) == p \div 100
 PM(p) == p % 100
+MSetsK(k) == UpTo(Matchers, k) \ (IF AllowEmpty THEN {} ELSE {{}})
+\* the next-state relation restricted to the plans (enumerates only the matcher sets of the plans the database is in)
+MCInit == db \in UpTo(Series, MaxSeries) /\ ms = {} /\ ph = "db"
+MCNext == /\ ph = "db" /\ ph' = "case" /\ UNCHANGED db
+          /\ \E p \in Plans : Cardinality(db) <= PS(p) /\ ms' \in MSetsK(PM(p))
 InPlan(d, M) == \E p \in Plans : Cardinality(d) <= PS(p) /\ Cardinality(M) <= PM(p)
 PlanOK == IsCase => InPlan(db, ms)
 
 CaseOf(d, M) == [db |-> d, ms |-> M, def |-> Selected(d, M), mech |-> MechSelected(d, M), traits |-> Traits(d, M)]
-MSetsK(k) == UpTo(Matchers, k) \ (IF AllowEmpty THEN {} ELSE {{}})
 PlanCases == UNION {{CaseOf(d, M) : d \in UpTo(Series, PS(p)), M \in MSetsK(PM(p))} : p \in Plans}
 SampleCases == IF SampleDB = 0 \/ SampleMS = 0 THEN {}
                ELSE {CaseOf(d, M) : d \in RandomSubset(SampleDB, UpTo(Series, SampleSeries)),
